@@ -33,7 +33,7 @@ Proof. intros [_ [H _]]. exact H. Qed.
 
 (* what a write does, from either kind of state *)
 Lemma write_rel_ts c crit e lo hi n x a b :
-  tscfg c crit -> tag_free c -> years_ok e lo hi -> RelT c e lo n x a ->
+  tscfg c crit -> tag_ok c -> years_ok e lo hi -> RelT c e lo n x a ->
   (wnow (s_w x) <= hi)%Z -> (N.of_nat n <= usize_max)%N ->
   exists s w' s' rot, s_flw x = Some s /\ f_poisoned s = false /\
     write_buffer s (s_w x) b = (Ok tt, w', s', rot)
@@ -91,7 +91,7 @@ Qed.
 
 (* one basic operation *)
 Lemma step_rel_ts c crit e lo hi n x a o :
-  tscfg c crit -> tag_free c -> years_ok e lo hi -> RelT c e lo n x a -> basic_op o -> tick_ok o ->
+  tscfg c crit -> tag_ok c -> years_ok e lo hi -> RelT c e lo n x a -> basic_op o -> tick_ok o ->
   (wnow (s_w x) <= hi)%Z -> (N.of_nat n <= usize_max)%N ->
   let '(x', ob) := step x o in
   RelT c e lo (S n) x' (a_step a o (rot_of ob)) /\ wnow (s_w x') = (wnow (s_w x) + dt_of o)%Z.
@@ -135,7 +135,7 @@ Proof.
     cbn [rot_of a_step]. split; [apply RelT_mono; exact R | lia].
 Qed.
 
-Lemma run_rel_ts c crit e lo hi : tscfg c crit -> tag_free c -> years_ok e lo hi ->
+Lemma run_rel_ts c crit e lo hi : tscfg c crit -> tag_ok c -> years_ok e lo hi ->
   forall ops x a n, RelT c e lo n x a -> Forall basic_op ops -> Forall tick_ok ops ->
   (wnow (s_w x) + elapsed ops <= hi)%Z -> (N.of_nat (n + length ops) <= usize_max)%N ->
   RelT c e lo (n + length ops) (fst (run x ops)) (a_run a ops (snd (run x ops)))
